@@ -328,6 +328,41 @@ def file_case(case):
                         break
                 os.remove(good)
                 shutil.rmtree(os.path.join(d, "sub"))
+                # the group already holds curves of the very same file
+                # (loaded with the missing value supplied by the caller);
+                # the file's curves as they are must still be refused
+                # (afmformats implements the override for the text format)
+                try:
+                    if not case.get("csv"):
+                        raise StopIteration
+                    grp1 = IndentationGroup(
+                        path, meta_override={"spring constant": 0.123})
+                    n1 = len(grp1)
+                    raw = load_data(path)
+                    for how in ("append", "iadd"):
+                        try:
+                            if how == "append":
+                                grp1.append(raw[0])
+                            else:
+                                grp1 += raw
+                            viol("refusal", how + ":same-file", "curve with "
+                                 "neither spring constant nor tip position "
+                                 f"was accepted by {how} into a group that "
+                                 "holds curves of the same file")
+                        except MissingMetaDataError:
+                            pass
+                        if len(grp1) != n1:
+                            viol("refusal", how + ":same-file:member",
+                                 f"after the refused {how} the group holds "
+                                 f"{len(grp1)} curves (had {n1})")
+                            break
+                except StopIteration:
+                    pass
+                except BaseException as e:
+                    if isinstance(e, (KeyboardInterrupt, SystemExit,
+                                      MemoryError)):
+                        raise
+                    viol("refusal", "same-file:raises", repr(e))
             mo = {"spring constant": 0.123} if case["override"] else None
             should_refuse = not (has_spring or has_tip or case["override"])
             for loader in ("IndentationGroup", "load_group"):
